@@ -97,7 +97,7 @@ impl Binder {
         };
         let having = self.bind_having(select.having)?;
         let orderby = match order_by {
-            Some(order_by) => self.bind_orderby(order_by.exprs)?,
+            Some(order_by) => self.bind_orderby(order_by.exprs, Some(projection))?,
             None => self.egraph.add(Node::List([].into())),
         };
         let distinct = match select.distinct {
@@ -198,7 +198,13 @@ impl Binder {
     }
 
     /// Binds the ORDER BY clause. Returns a list of expressions.
-    pub(super) fn bind_orderby(&mut self, order_by: Vec<OrderByExpr>) -> Result {
+    ///
+    /// With a select list, an integer literal `n` names its `n`-th item (`ORDER BY 2`).
+    pub(super) fn bind_orderby(
+        &mut self,
+        order_by: Vec<OrderByExpr>,
+        select_list: Option<Id>,
+    ) -> Result {
         let mut orderby = Vec::with_capacity(order_by.len());
         for e in order_by {
             // NULL sorts as the smallest value: first in ascending, last in descending order.
@@ -210,7 +216,22 @@ impl Binder {
                 )
                 .into());
             }
-            let expr = self.bind_expr(e.expr)?;
+            let expr = match (&e.expr, select_list) {
+                // a position in the select list; it used to be taken for a constant key
+                (Expr::Value(Value::Number(n, _)), Some(list)) if n.parse::<usize>().is_ok() => {
+                    let items = self.node(list).as_list();
+                    match n.parse::<usize>() {
+                        Ok(i) if (1..=items.len()).contains(&i) => items[i - 1],
+                        _ => {
+                            return Err(ErrorKind::InvalidExpression(format!(
+                                "ORDER BY position {n} is not in select list"
+                            ))
+                            .into());
+                        }
+                    }
+                }
+                _ => self.bind_expr(e.expr)?,
+            };
             let key = match e.asc {
                 Some(true) | None => expr,
                 Some(false) => self.egraph.add(Node::Desc(expr)),
